@@ -157,7 +157,12 @@ def build_reference_part(trees: dict[str, ast.Module]) -> dict:
     for rel, tree in trees.items():
         for q, fn in _functions(tree):
             bodies.setdefault(rel, {})[q] = body_hash(fn)
-    return {'__idents__': sorted(ids), '__stmts__': stm, '__params__': params, '__bodyhash__': bodies}
+    srcs = {}
+    for rel, tree in trees.items():
+        for q, fn in _functions(tree):
+            if '<locals>' not in q:
+                srcs.setdefault(rel, {})[q] = ast.unparse(fn)
+    return {'__idents__': sorted(ids), '__stmts__': stm, '__params__': params, '__bodyhash__': bodies, '__src__': srcs}
 
 
 def body_hash(fn) -> str:
@@ -339,6 +344,10 @@ class _RenameAll(ast.NodeTransformer):
 
 # ------------------------------------------------------------------------------------------------ K  new constants
 
+_VALUE_CTORS = {'date', 'datetime', 'timedelta', 'time', 'frozenset', 'Path', 'PurePath', 'Fraction', 'Decimal', 'complex',
+                'range', 'int', 'float', 'str', 'bytes', 'bool', 'tuple'}
+
+
 def _immutable_const(e, known: set[str]) -> bool:
     if isinstance(e, ast.Constant):
         return True
@@ -350,6 +359,10 @@ def _immutable_const(e, known: set[str]) -> bool:
         return _immutable_const(e.left, known) and _immutable_const(e.right, known)
     if isinstance(e, ast.Name):
         return e.id in known
+    if isinstance(e, ast.Call) and isinstance(e.func, ast.Name) and e.func.id in _VALUE_CTORS \
+            and not any(k.arg is None for k in e.keywords):
+        # constructors of immutable value objects with constant arguments
+        return all(_immutable_const(a, known) for a in e.args) and all(_immutable_const(k.value, known) for k in e.keywords)
     if isinstance(e, ast.JoinedStr):
         return all(isinstance(v, ast.Constant) or (isinstance(v, ast.FormattedValue) and _immutable_const(v.value, known))
                    for v in e.values)
@@ -512,6 +525,181 @@ def moved_functions(trees: dict[str, ast.Module], ref_funcs: dict[str, list[str]
     return out
 
 
+# ------------------------------------------------------------------------------------------------ I  inlined helpers
+
+def canonical_form(fn) -> str:
+    """a function up to local names, single-use / effect-free temporaries, docstrings and annotations"""
+    from . import prenorm, temps
+    from .alpha import function_locals
+    from .loader import _Canon
+    f = copy.deepcopy(fn)
+    f.body = [s for i, s in enumerate(f.body)
+              if not (i == 0 and isinstance(s, ast.Expr) and isinstance(s.value, ast.Constant)
+                      and isinstance(s.value.value, str))] or [ast.Pass()]
+    f.returns = None
+    for a in ast.walk(f.args):
+        if isinstance(a, ast.arg):
+            a.annotation = None
+    for n in ast.walk(f):
+        if isinstance(n, ast.AnnAssign) and n.value is not None and isinstance(n.target, ast.Name):
+            pass
+    _split_tuple_assigns(f)
+    ast.fix_missing_locations(f)
+    _renumber(f)
+    prenorm.inline_new_locals(f, set(), set(), set())
+    temps.flatten(f)
+    f = _Canon().visit(f)
+    # locals named by order of first binding
+    order = []
+    for n in _preorder(f):
+        if isinstance(n, ast.Name) and isinstance(n.ctx, ast.Store) and n.id not in order:
+            order.append(n.id)
+    locs = function_locals(f)
+    mp = {n: f'L{i}' for i, n in enumerate(x for x in order if x in locs)}
+    for n in ast.walk(f):
+        if isinstance(n, ast.Name) and n.id in mp:
+            n.id = mp[n.id]
+    return '\n'.join(' '.join(ast.unparse(s).split()) for s in f.body)
+
+
+def _preorder(n):
+    yield n
+    for c in ast.iter_child_nodes(n):
+        yield from _preorder(c)
+
+
+def _renumber(fn):
+    """line numbers in source order (the passes order binding sites by line)"""
+    for i, n in enumerate(_preorder(fn)):
+        if isinstance(n, (ast.stmt, ast.expr, ast.arg, ast.keyword, ast.excepthandler)):
+            n.lineno = n.end_lineno = i + 1
+            n.col_offset = n.end_col_offset = 0
+
+
+def _split_tuple_assigns(fn):
+    """a, b = x, y  ->  a = x; b = y  when no value reads a target of the same statement"""
+    for node in ast.walk(fn):
+        for f in ('body', 'orelse', 'finalbody'):
+            b = getattr(node, f, None)
+            if not (isinstance(b, list) and b and isinstance(b[0], ast.stmt)):
+                continue
+            nb = []
+            for st in b:
+                if isinstance(st, ast.Assign) and len(st.targets) == 1 and isinstance(st.targets[0], ast.Tuple) \
+                        and isinstance(st.value, ast.Tuple) and len(st.targets[0].elts) == len(st.value.elts) \
+                        and all(isinstance(e, ast.Name) for e in st.targets[0].elts) \
+                        and not any(isinstance(e, ast.Starred) for e in st.value.elts):
+                    tn = {e.id for e in st.targets[0].elts}
+                    if not any(isinstance(x, ast.Name) and x.id in tn for v in st.value.elts for x in ast.walk(v)):
+                        for t, v in zip(st.targets[0].elts, st.value.elts):
+                            nb.append(ast.copy_location(ast.Assign(targets=[t], value=v), st))
+                        continue
+                nb.append(st)
+            setattr(node, f, nb)
+
+
+def restore_inlined_helpers(trees: dict[str, ast.Module], R: dict, skip: set) -> list[str]:
+    """Reference helpers that are gone, while each reference caller now equals (in canonical form) the reference
+    caller with the reference helpers inlined: the current caller *is* that inlining, so the reference caller and
+    the helpers are put back.  Proof by normal form; anything that does not match is left alone."""
+    from . import prenorm
+    from .alpha import _functions
+    from .loader import _Canon
+    done = []
+    srcs = R.get('__src__', {})
+    calls = R.get('__calls__', {})
+    for rel, tree in trees.items():
+        ref_here = srcs.get(rel, {})
+        if not ref_here:
+            continue
+        cur = {q: fn for q, fn in _functions(tree)}
+        gone = {}
+        for q in ref_here:
+            if q in cur or (rel, q) in skip or '<locals>' in q:
+                continue
+            try:
+                h = _Canon().visit(ast.parse(ref_here[q])).body[0]
+            except SyntaxError:
+                continue
+            if prenorm._eligible_helper(h):
+                gone[q] = h
+        if not gone:
+            continue
+        names = {q.rsplit('.', 1)[-1]: q for q in gone}
+
+        def cls_of(q):
+            return ast.ClassDef(name=q.rsplit('.', 2)[-2], bases=[], keywords=[], body=[], decorator_list=[]) if '.' in q else None
+
+        def mentions(cq, seen=()):
+            out = set()
+            for t in calls.get(rel, {}).get(cq, {}):
+                n = t.rsplit('.', 1)[-1]
+                if n in names and names[n] not in seen:
+                    out.add(names[n])
+                    out |= mentions(names[n], tuple(seen) + (names[n],))
+            return out
+
+        restored = set()
+        for cq, node in cur.items():
+            if cq not in ref_here or '<locals>' in cq:
+                continue
+            used = mentions(cq)
+            if not used:
+                continue
+            refc = _Canon().visit(ast.parse(ref_here[cq])).body[0]
+            inl = copy.deepcopy(refc)
+            ok = True
+            guard = 0
+            while ok and guard < 40:
+                guard += 1
+                progressed = False
+                for q in sorted(used):
+                    cn = cls_of(q)
+                    same = cn is not None and '.' in cq and cq.rsplit('.', 1)[0].rsplit('.', 1)[-1] == cn.name
+                    sites = prenorm._sites(inl, q.rsplit('.', 1)[-1], cn, cn if same else None)
+                    if sites:
+                        body, i, st, c, how, where = sites[0]
+                        if not prenorm._inline_call(inl, body, i, st, c, gone[q], how, where):
+                            ok = False
+                        progressed = True
+                        break
+                if not progressed:
+                    break
+            if not ok:
+                continue
+            try:
+                if canonical_form(inl) != canonical_form(node):
+                    continue
+            except Exception:
+                continue
+            node.body = refc.body
+            node.args = refc.args
+            node.decorator_list = refc.decorator_list
+            ln = node.lineno
+            for x in ast.walk(node):
+                if x is not node and isinstance(x, (ast.stmt, ast.expr, ast.arg, ast.keyword, ast.excepthandler)):
+                    x.lineno = ln + getattr(x, 'lineno', 1) - 1
+                    x.end_lineno = ln + (getattr(x, 'end_lineno', None) or getattr(x, 'lineno', 1)) - 1
+            for q in used:
+                if q in restored:
+                    continue
+                restored.add(q)
+                helper = gone[q]
+                owner = tree.body
+                if '.' in q:
+                    for n in ast.walk(tree):
+                        if isinstance(n, ast.ClassDef) and n.name == q.rsplit('.', 2)[-2]:
+                            owner = n.body
+                            break
+                for x in ast.walk(helper):
+                    if isinstance(x, (ast.stmt, ast.expr, ast.arg, ast.keyword, ast.excepthandler)):
+                        x.lineno = node.lineno
+                        x.end_lineno = node.lineno
+                owner.append(helper)
+                done.append(f'{rel}:{q}')
+    return done
+
+
 # ------------------------------------------------------------------------------------------------ entry point
 
 def apply(files: list[tuple[str, str, ast.Module, str]], R: dict) -> dict:
@@ -544,4 +732,6 @@ def apply(files: list[tuple[str, str, ast.Module, str]], R: dict) -> dict:
     info['constants_folded'] = fold_new_constants(trees, ref_ids, modnames)
     # M
     info['moved'] = moved_functions(trees, R.get('__funcs__', {}), R.get('__bodyhash__'))
+    # I
+    info['restored_helpers'] = restore_inlined_helpers(trees, R, set(info['moved']))
     return info
